@@ -6,6 +6,7 @@ for d in seeded/*/; do
   n=$(basename $d)
   id=$(python3 -c "import json;m=json.load(open('$d/meta.json'));print((m.get('detected_by') or {}).get('check') or m['property'])")
   tier=$(python3 -c "import json;print((json.load(open('$d/meta.json')).get('detected_by') or {}).get('tier','quick'))")
+  if python3 -c "import json,sys;sys.exit(0 if json.load(open('$d/meta.json')).get('neutralised_by_fix') else 1)"; then echo "$n neutralised by a later fix commit (see meta.json)"; continue; fi
   p=/verif/$d/patch.diff; [ -f /verif/$d/patch_head.diff ] && p=/verif/$d/patch_head.diff
   out=$(tools/try_mutant.sh $p $id $tier 2>&1 | tail -1)
   echo "$n $id $tier $out"
